@@ -95,6 +95,15 @@ func genBS(t *rapid.T) BSCase {
 	if w[0] == 0 {
 		w[0] = 2
 	}
+	// Deletes and hash-on-read toggles are what the suite never calls: keep
+	// them present in most cases.
+	if weighted(t, "allkinds", []int{1, 3}) == 1 {
+		for i := range w {
+			if w[i] == 0 {
+				w[i] = 1
+			}
+		}
+	}
 	c.Ops = rapid.SliceOfN(rapid.Custom(func(t *rapid.T) BSOp {
 		op := BSOp{K: kinds[weighted(t, "kind", w)]}
 		op.Cancelled = weighted(t, "cancelled", []int{8, 1}) == 1
@@ -108,7 +117,7 @@ func genBS(t *rapid.T) BSCase {
 			op.Variant = rapid.IntRange(0, 3).Draw(t, "variant")
 		}
 		return op
-	}), 2, 50).Draw(t, "ops")
+	}), 4, 60).Draw(t, "ops")
 	return c
 }
 
@@ -387,7 +396,7 @@ func TestC15(t *testing.T) {
 			t.Fatalf("regression case %s: %v", f, v)
 		}
 	}
-	setRapidChecks(budget(12000, 30000))
+	setRapidChecks(budget(40000, 60000))
 	rapid.Check(t, func(rt *rapid.T) {
 		if pastDeadline() {
 			ev.Skip()
